@@ -15,7 +15,7 @@ import (
 var profC04 = Profile{
 	MaxProcs: 5, MaxItems: 4, Bufsizes: []int{0, 1, 2, 3}, MaxSlots: 6,
 	Params: true, MultiOut: true, FanIn: true, FanOut: true, NoPort: true, Custom: true,
-	Subdirs: true, Cores: true, Recorders: true, ParamSrc: true, TwoSources: true, Zip: true, Sinkless: true, Joins: true, EmptyOuts: true,
+	Subdirs: true, Cores: true, Recorders: true, ParamSrc: true, TwoSources: true, Zip: true, Sinkless: true, Joins: true, EmptyOuts: true, Taggers: true,
 }
 
 func tierProfile(p Profile, tier string) Profile {
@@ -115,6 +115,7 @@ func init() {
 				w = globDepWF(c)
 			} else {
 				w = Generate(c.Tape, tierProfile(profC04, c.Tier))
+				AddTagArgs(c.Tape, w) // some commands receive tag values ({t:port.key})
 			}
 			c.Sample = sample(w)
 			ex := Eval(w)
@@ -123,6 +124,12 @@ func init() {
 			if c.Tape.Choose(simrt.StGen, 4, 0) == 1 {
 				// some outputs are already there (complete tasks, reference bytes):
 				// the result must still be the same function of graph and inputs
+				// (placed without audit files, so the tags of their lineage are gone:
+				// no command may then depend on an inherited tag)
+				for i := range w.Nodes {
+					w.Nodes[i].TagArgs = nil
+				}
+				ex = Eval(w)
 				var pre map[string][]byte
 				root, nextIno, pre = preplaceMap(c, w, ex, false)
 				ex = EvalWith(w, pre)
@@ -307,6 +314,7 @@ func ExportCase(t *simrt.Tape) (*WF, map[string]string, []string) {
 		w = streamWF(NewCase("export", "quick", t))
 	} else {
 		w = Generate(t, p)
+		AddTagArgs(t, w)
 	}
 	ex := Eval(w)
 	files := map[string]string{}
